@@ -199,6 +199,7 @@ NOTES = {
     'C05-opchain-keeps-caller-lists': 'round 6, first run: MISSED (engine F refuted no_capture for OpChain.__init__, no failing input). The chain lists of all graph stand-ins are now built by a caller that reuses two scratch lists and overwrites them afterwards',
     'C09-bond-numiter-default': 'round 6, first run: MISSED (with |dt| ||H|| <= 2 a Krylov space of 25 vectors is exact to rounding). r_C09 has purely imaginary steps with |dt| ||H|| between 30 and 50 on local problems of more than 25 dimensions; the sweep contracts (engine Z, now also registered for C09) have the obligation that every local step receives the caller\'s numiter_lanczos',
     'C09-twosite-backstep-numiter': 'round 6, first run: MISSED. Same additions',
+    'C17-stale-leaf-flag': 'round 7, first run: MISSED (trees were always built through the constructor). The tree builder of the stand-ins creates about half of the nodes empty and attaches the children with add_child',
     'C17-optree-node-children-alias': 'round 5, first run: MISSED. r_C17 builds two tree nodes from one list and extends one; engine F distinguishes keeping the *elements* of a list (allowed for nodes) from keeping the list itself',
     'C06-zero-coeff-filter-tolerance': 'first run: MISSED. r_C06 now includes parameter points scaled by 1e-9 ... 1e+12 (every parameter value is legal)',
 }
